@@ -460,6 +460,11 @@ class Coder(object):
         :type bit_operator:
         :type descriptor: ElementDescriptor
         """
+        if not isinstance(descriptor, ElementDescriptor):
+            # e.g. an undefined descriptor in place of a delayed replication factor
+            raise UnknownDescriptor('Cannot process descriptor {} of type: {}'.format(
+                descriptor, type(descriptor).__name__))
+
         X = descriptor.X
 
         # Read associated field if exists
